@@ -15,10 +15,53 @@ fn main() {
     let cases: usize = get("--cases").and_then(|s| s.parse().ok()).unwrap_or(10);
     let first: usize = get("--first").and_then(|s| s.parse().ok()).unwrap_or(0);
     let quiet_panics = get("--show-panics").is_none();
+    let exhaust: usize = get("--exhaust").and_then(|s| s.parse().ok()).unwrap_or(0);
+    let replay: Option<Vec<usize>> = get("--replay").map(|s| s.split('.').filter_map(|x| x.parse().ok()).collect());
     if quiet_panics {
         std::panic::set_hook(Box::new(|_| {}));
     }
     use std::io::Write;
+    if exhaust > 0 {
+        // Depth-first enumeration of the schedule tree of each case (up to `exhaust` schedules per case):
+        // run with a choice prefix (first-enabled afterwards), read back the choices and the number of
+        // alternatives at every choice point, advance the last choice that still has an alternative.
+        let exe = std::env::current_exe().expect("current_exe");
+        for n in first..first + cases {
+            let mut prefix: Vec<usize> = vec![];
+            let mut done = 0usize;
+            loop {
+                let enc = if prefix.is_empty() { "-".to_string() } else { prefix.iter().map(|c| c.to_string()).collect::<Vec<_>>().join(".") };
+                let out = std::process::Command::new(&exe)
+                    .args(["--family", &family, "--seed", &seed.to_string(), "--cases", "1", "--first", &n.to_string(), "--replay", &enc])
+                    .output()
+                    .expect("spawn case process");
+                std::io::stdout().write_all(&out.stdout).unwrap();
+                done += 1;
+                let err = String::from_utf8_lossy(&out.stderr);
+                let Some(line) = err.lines().find(|l| l.starts_with("SCHED ")) else { break };
+                let mut parts = line[6..].split('|');
+                let ch: Vec<usize> = parts.next().unwrap_or("").split('.').filter_map(|x| x.parse().ok()).collect();
+                let wd: Vec<usize> = parts.next().unwrap_or("").split('.').filter_map(|x| x.parse().ok()).collect();
+                // next schedule in depth-first order
+                let mut i = ch.len();
+                let mut next = None;
+                while i > 0 {
+                    i -= 1;
+                    if ch[i] + 1 < wd[i] {
+                        let mut p = ch[..i].to_vec();
+                        p.push(ch[i] + 1);
+                        next = Some(p);
+                        break;
+                    }
+                }
+                match next {
+                    Some(p) if done < exhaust => prefix = p,
+                    _ => break,
+                }
+            }
+        }
+        return;
+    }
     if cases > 1 {
         // One process per case: `futures::select!` draws from a thread-local xorshift state that survives
         // from case to case, so a case would otherwise depend on its predecessors and not replay alone.
@@ -56,7 +99,10 @@ fn main() {
         node::reset_ids();
         prog::reset_ops();
         let cfg = ExecCfg {
-            sched: case.sched.clone(),
+            sched: match &replay {
+                Some(v) => exec::Sched::Replay(v.clone()),
+                None => case.sched.clone(),
+            },
             prompt: case.prompt,
             horizon: case.horizon,
             max_steps: 4000,
@@ -65,7 +111,17 @@ fn main() {
         let prog = case.program.clone();
         let outcome = exec::run(case_seed, cfg, |inner| prog::launch(inner, &prog));
         prog::cleanup_registry();
-        writeln!(out, "case {} {} {} {}", n, family, case_seed, case.tags.join(",")).unwrap();
+        let mut tags = case.tags.join(",");
+        if replay.is_some() {
+            let enc = outcome.choices.iter().map(|c| c.to_string()).collect::<Vec<_>>().join(".");
+            tags = format!("{},sched={}", tags, if enc.is_empty() { "-".into() } else { enc.clone() });
+            eprintln!(
+                "SCHED {}|{}",
+                enc,
+                outcome.widths.iter().map(|c| c.to_string()).collect::<Vec<_>>().join(".")
+            );
+        }
+        writeln!(out, "case {} {} {} {}", n, family, case_seed, tags).unwrap();
         for l in &outcome.log {
             writeln!(out, "{}", l).unwrap();
         }
